@@ -566,3 +566,99 @@ Proof.
   rewrite (all_some_map port_json port_of wf_port _ port_of_ok) by assumption. cbv beta iota.
   cbn [nil_end]. cbv beta iota. destruct s; reflexivity.
 Qed.
+
+(** * The serialised state is a well-formed JSON value *)
+
+Lemma mem_name_plain n t :
+  mem_name n t = true -> forallb (fun p => plain (s2c (fst p))) t = true -> plain (s2c n) = true.
+Proof.
+  unfold mem_name. induction t as [| p t IH]; cbn [existsb forallb]; [discriminate |].
+  intros H F. apply andb_true_iff in F. destruct F as [Fp Ft].
+  apply orb_true_iff in H. destruct H as [H | H].
+  - apply String.eqb_eq in H. subst n. exact Fp.
+  - apply IH; assumption.
+Qed.
+
+Lemma wf_jbytes l : wf_json (jbytes l) = true.
+Proof. unfold jbytes. cbn [wf_json]. induction l; cbn [map forallb]; [reflexivity | exact IHl]. Qed.
+
+Lemma forallb_map_wf {A} (f : A -> json) l :
+  (forall x, In x l -> wf_json (f x) = true) -> forallb wf_json (map f l) = true.
+Proof.
+  intros H. induction l as [| x l IH]; cbn [map forallb]; [reflexivity |].
+  rewrite (H x (or_introl eq_refl)). apply IH. intros y Hy. apply H. right. exact Hy.
+Qed.
+
+Ltac wfj :=
+  repeat match goal with
+         | |- (_ && _)%bool = true => apply andb_true_iff; split
+         | |- true = true => reflexivity
+         | |- plain (key _) = true => reflexivity
+         | |- wf_json (jbytes _) = true => apply wf_jbytes
+         | |- wf_json (JInt _) = true => reflexivity
+         | |- wf_json (JBool _) = true => reflexivity
+         end.
+
+Lemma wf_acc_json a : wf_acc a = true -> wf_json (acc_json a) = true.
+Proof.
+  destruct a as [n | v]; cbn [wf_acc acc_json]; intros H.
+  - unfold jstr. cbn [wf_json]. apply (mem_name_plain n clock_accuracy_units H). reflexivity.
+  - reflexivity.
+Qed.
+
+Lemma wf_ts_json t : wf_ts t = true -> wf_json (ts_json t) = true.
+Proof.
+  destruct t as [n | v | v]; cbn [wf_ts ts_json]; intros H.
+  - unfold jstr. cbn [wf_json]. apply (mem_name_plain n time_source_units H). reflexivity.
+  - reflexivity.
+  - reflexivity.
+Qed.
+
+Lemma wf_cq_json q : wf_cq q = true -> wf_json (cq_json q) = true.
+Proof.
+  unfold wf_cq, cq_json. intros H. split_wf. cbn [wf_json forallb fst snd]. wfj.
+  apply wf_acc_json; assumption.
+Qed.
+
+Lemma wf_pi_json p : wf_json (pi_json p) = true.
+Proof. unfold pi_json. cbn [wf_json forallb fst snd]. wfj. Qed.
+
+Lemma wf_mech_json m : wf_json (mech_json m) = true.
+Proof. destruct m; reflexivity. Qed.
+
+Lemma wf_port_json p : wf_port p = true -> wf_json (port_json p) = true.
+Proof.
+  unfold wf_port, port_json. intros H. split_wf. cbn [wf_json forallb fst snd]. wfj.
+  - apply wf_pi_json.
+  - unfold jstr. cbn [wf_json].
+    match goal with H : mem_name _ port_state_table = true |- _ =>
+      apply (mem_name_plain _ port_state_table H) end. reflexivity.
+  - apply wf_mech_json.
+Qed.
+
+Theorem wf_to_json : forall s, wf_state s = true -> wf_json (to_json s) = true.
+Proof.
+  intros s W. unfold wf_state in W. split_wf. unfold to_json.
+  cbn [wf_json forallb fst snd]. wfj;
+    try (unfold jstr; cbn [wf_json]; assumption);
+    try (apply wf_cq_json; assumption);
+    try apply wf_pi_json.
+  - destruct (tp_utc s); reflexivity.
+  - destruct (tp_leap s); reflexivity.
+  - apply wf_ts_json; assumption.
+  - apply forallb_map_wf. intros x _. apply wf_jbytes.
+  - apply forallb_map_wf. intros x Hx. apply wf_port_json.
+    match goal with H : forallb wf_port (ports s) = true |- _ =>
+      rewrite forallb_forall in H; exact (H x Hx) end.
+Qed.
+
+(** json_roundtrip: for EVERY well-formed observable state (path trace lists and
+    port lists of any length, Duration bits of any size within i128, every
+    enum variant) the bytes the daemon writes parse back, through the JSON
+    parser and the Deserialize model, to exactly that state. *)
+Theorem json_roundtrip : forall s,
+  wf_state s = true ->
+  match parse (print (to_json s)) with Some v => of_json v | None => None end = Some s.
+Proof.
+  intros s W. rewrite (parse_print _ (wf_to_json s W)). apply of_to_json. exact W.
+Qed.
